@@ -1243,6 +1243,16 @@ func (e *Engine) evalCall(ctx *EvalCtx, x *Expr) (Val, error) {
 			return boolVal(hasSuffixTerm(e, vs[0].S, vs[1].S)), nil
 		}
 		return boolVal(hasPrefixTerm(e, vs[0].S, vs[1].S)), nil
+	case "fst", "snd", "third":
+		vs, err := args()
+		if err != nil {
+			return Val{}, err
+		}
+		idx := map[string]int{"fst": 0, "snd": 1, "third": 2}[name]
+		if len(vs) == 1 && idx < len(vs[0].Tuple) {
+			return vs[0].Tuple[idx], nil
+		}
+		return Val{}, fmt.Errorf("%s needs a tuple", name)
 	case "getenv":
 		vs, err := args()
 		if err != nil {
@@ -1560,6 +1570,24 @@ func (e *Engine) evalMethodCall(ctx *EvalCtx, x *Expr) (Val, error) {
 // A function whose contract is marked pure is the same uninterpreted function as at its call sites.
 func (e *Engine) callPure(ctx *EvalCtx, fn *ssa.Function, args []Val) (Val, error) {
 	if c := e.P.ContractFor(fn); c != nil && c.Pure {
+		if n := fn.Signature.Results().Len(); n > 1 {
+			for i, p := range fn.Params {
+				if i < len(args) {
+					_, a := e.coerceInts(Val{T: p.Type()}, args[i])
+					a.T = p.Type()
+					args[i] = a
+				}
+			}
+			var vs []Val
+			for i := 0; i < n; i++ {
+				v, ok := e.pureApply(c, i, fn.Signature.Results().At(i).Type(), args)
+				if !ok {
+					return Val{}, fmt.Errorf("cannot apply pure function %s", fn.Name())
+				}
+				vs = append(vs, v)
+			}
+			return Val{T: fn.Signature.Results(), Tuple: vs}, nil
+		}
 		if fn.Signature.Results().Len() == 1 {
 			for i, p := range fn.Params {
 				if i < len(args) {
